@@ -157,6 +157,7 @@ func expandEdits(edits []Edit) []editStep {
 				if p, n, er := fs.parentOf(bak); er == 0 {
 					if _, ok := p.Children[n]; ok {
 						delete(p.Children, n)
+						p.Mtime = now()
 						notify(bak, EvRemove)
 					}
 				}
@@ -166,6 +167,7 @@ func expandEdits(edits []Edit) []editStep {
 				if p, n, er := fs.parentOf(e.Path); er == 0 {
 					if gone, ok := p.Children[n]; ok {
 						delete(p.Children, n)
+						p.Mtime = now()
 						notify(e.Path, EvRemove)
 						detached(gone, p, EvRemove)
 					}
